@@ -47,6 +47,29 @@
 // (inUniverse; a back conversion that would be such a pair is skipped and
 // counted).
 //
+// Member-name shapes (groups names/two-in-one and names/one-each-side of the
+// struct-member families): pairs of member names that are different names,
+// also with letter case ignored, but resemble each other - they differ only
+// by underscores (inner, trailing, doubled, before a digit, leading: _Ab is
+// not exported and needs a statically declared type), by digits, by a letter
+// that is not ASCII, or one is a prefix of the other (namePairs). Both names
+// in one struct on both sides: each member receives its own value. One name
+// on each side: they are not counterparts, so the pair is converted without
+// an error even when the two members are of different kind classes, and the
+// destination member keeps what it held.
+//
+// Populated destinations (families populated:*): every case of the compatible
+// families is also converted into a destination variable that already holds
+// data (and back into a variable of the source type that does), see
+// populations. The oracle is the same: a slice has exactly the source's
+// elements, every key of the source is present with the source's value,
+// every matched member equals its counterpart, a member without counterpart
+// is left alone; a map key that only the old destination had may stay (the
+// implementation converts into the existing map; the statement is silent).
+// A failure that shows with a fresh destination as well is reported by the
+// fresh family only; the entry point of the others is written
+// ConvertFrom(populated-destination) in the fingerprint.
+//
 // Narrowing and cross-signedness integer pairs, float64 -> float32 on values
 // that are not float32, unmatched struct members, nil-versus-empty and NaN
 // payloads are NOT judged: the statement does not speak about them.
@@ -65,6 +88,8 @@ import (
 	"sort"
 	"strings"
 	"time"
+	"unicode"
+	"unicode/utf8"
 	"unsafe"
 
 	"github.com/lugu/qiloop/type/conversion"
@@ -342,8 +367,16 @@ func structOnly(ps []pair) []pair {
 
 type env struct {
 	rt          map[string]reflect.Type
+	rtp         map[*sigen.T]reflect.Type // the same, by node
 	back        map[string]bool
 	backSkipped int // compatible cases judged on the forward conversion only
+	pop         map[string]popSrc
+	dist        map[string]reflect.Value // distinguished value per type
+}
+
+type popSrc struct {
+	v   [3]reflect.Value
+	cut bool
 }
 
 // backOK: the reverse pair belongs to the universe too.
@@ -357,15 +390,21 @@ func (e *env) backOK(p pair) bool {
 	return ok
 }
 
-func newEnv() *env { return &env{rt: map[string]reflect.Type{}, back: map[string]bool{}} }
+func newEnv() *env {
+	return &env{rt: map[string]reflect.Type{}, rtp: map[*sigen.T]reflect.Type{}, back: map[string]bool{}, pop: map[string]popSrc{}, dist: map[string]reflect.Value{}}
+}
 
 func (e *env) rtype(t *sigen.T) reflect.Type {
-	k := t.Sig()
-	if r, ok := e.rt[k]; ok {
+	if r, ok := e.rtp[t]; ok {
 		return r
 	}
-	r := rtypeNoCache(t)
-	e.rt[k] = r
+	k := t.Sig()
+	r, ok := e.rt[k]
+	if !ok {
+		r = rtypeNoCache(t)
+		e.rt[k] = r
+	}
+	e.rtp[t] = r
 	return r
 }
 
@@ -575,7 +614,11 @@ func hasNaNOrNegZero(v reflect.Value) bool {
 
 // ------------------------------------------------------------ struct members
 
-func exported(name string) bool { return name != "" && name[0] >= 'A' && name[0] <= 'Z' }
+// exported: Go's rule - the first character is a Unicode upper case letter.
+func exported(name string) bool {
+	r, _ := utf8.DecodeRuneInString(name)
+	return unicode.IsUpper(r)
+}
 
 // counterpart: the member of the source struct s designated by "matched by
 // field name" for member j of the destination struct d - the one of the same
@@ -668,8 +711,70 @@ func lossless(s, d *sigen.T) bool {
 	return true
 }
 
+// nameShape tells in which way two different member names resemble each
+// other ("" if they do not): equal up to letter case; equal once the
+// underscores are removed; equal once the digits are removed; of the same
+// length and different only where a letter is not ASCII; one a prefix of the
+// other (the last four with letter case ignored).
+func nameShape(a, b string) string {
+	if a == b {
+		return ""
+	}
+	if strings.EqualFold(a, b) {
+		return "case"
+	}
+	strip := func(s string, drop func(rune) bool) string {
+		return strings.Map(func(r rune) rune {
+			if drop(r) {
+				return -1
+			}
+			return r
+		}, s)
+	}
+	if us := func(r rune) bool { return r == '_' }; strings.EqualFold(strip(a, us), strip(b, us)) {
+		return "underscores"
+	}
+	if dg := func(r rune) bool { return r >= '0' && r <= '9' }; strings.EqualFold(strip(a, dg), strip(b, dg)) {
+		return "digits"
+	}
+	if ra, rb := []rune(strings.ToLower(a)), []rune(strings.ToLower(b)); len(ra) == len(rb) {
+		only := true
+		for i := range ra {
+			if ra[i] != rb[i] && ra[i] < utf8.RuneSelf && rb[i] < utf8.RuneSelf {
+				only = false
+			}
+		}
+		if only {
+			return "unicode-letters"
+		}
+	}
+	if la, lb := strings.ToLower(a), strings.ToLower(b); strings.HasPrefix(la, lb) || strings.HasPrefix(lb, la) {
+		return "prefix"
+	}
+	return ""
+}
+
+// similarNames: the first resemblance (other than letter case) among the
+// member names of the two structs taken together.
+func similarNames(s, d *sigen.T, shapes ...string) string {
+	names := append(append([]string(nil), s.Fields...), d.Fields...)
+	for _, want := range shapes {
+		for a := range names {
+			for b := a + 1; b < len(names); b++ {
+				if nameShape(names[a], names[b]) == want {
+					return want
+				}
+			}
+		}
+	}
+	return ""
+}
+
 // memberClass names the struct pair for the fingerprint.
 func memberClass(s, d *sigen.T) string {
+	if sh := similarNames(s, d, "underscores", "digits", "unicode-letters"); sh != "" {
+		return "struct-names-differing-in-" + sh
+	}
 	embedded := false
 	for _, t := range []*sigen.T{s, d} {
 		for i, n := range t.Fields {
@@ -691,81 +796,131 @@ func memberClass(s, d *sigen.T) string {
 			}
 		}
 	}
+	if similarNames(s, d, "prefix") != "" {
+		return "struct-names-prefix-of-one-another"
+	}
 	return "struct"
 }
 
 // ------------------------------------------------------------ walker
 
+// sameOpt describes the destination variable the conversion was made into.
+//
+// pre is the value the destination node held BEFORE the conversion, where the
+// walker still knows it: at the root and below struct members (the zero value
+// for a fresh destination); it is the invalid Value below a slice element or
+// a map entry (the implementation may reuse the old element or make a new
+// one; nothing is promised about which). populated: the destination held
+// data; a map may then keep entries whose key the source does not have.
+type sameOpt struct {
+	pre       reflect.Value
+	populated bool
+}
+
 // same compares got with the source value src (of type st). Forward
 // (back == false): got is of the destination type dt and every judged member
-// (matched) is compared with its counterpart. Round trip (back == true): got
-// is of type st again and is compared on the members of st that are exported
-// and were matched with a member of dt on the way (the others cannot have
-// travelled). where == "" if every element, key and judged member of got
-// equals the source's; otherwise it describes the first difference, and
-// length tells whether that difference is the element count of the outermost
-// container.
-func same(st, dt *sigen.T, src, got reflect.Value, back bool) (length bool, where string) {
+// (matched) is compared with its counterpart; an EXPORTED member of a
+// destination struct that has no counterpart must still hold what it held
+// before the conversion (o.pre), where that is known. Round trip
+// (back == true): got is of type st again and is compared on the members of
+// st that are exported and were matched with a member of dt on the way (the
+// others cannot have travelled). where == "" if every element, key and judged
+// member of got equals the source's; otherwise it describes the first
+// difference, and kind is "length" if that difference is the element count of
+// the outermost container, "unmatched" if it is a member without counterpart
+// that changed.
+//
+// Slices: exactly the source's elements, whatever the destination held. Maps:
+// every key of the source with the source's value; into a fresh destination
+// nothing else; into a populated one, any other key must have been a key of
+// the old destination (where known) - the implementation under test merges
+// into an existing map as encoding/json does, and the statement says nothing
+// about keys the source does not define.
+func same(st, dt *sigen.T, src, got reflect.Value, back bool, o sameOpt) (kind string, where string) {
+	below := sameOpt{populated: o.populated}
 	switch st.Kind {
 	case sigen.Atom:
 		switch class(st) {
 		case "bool":
 			if src.Bool() != got.Bool() {
-				return false, fmt.Sprintf("bool %v became %v", src.Bool(), got.Bool())
+				return "", fmt.Sprintf("bool %v became %v", src.Bool(), got.Bool())
 			}
 		case "string":
 			if src.String() != got.String() {
-				return false, fmt.Sprintf("string %q became %q", src.String(), got.String())
+				return "", fmt.Sprintf("string %q became %q", src.String(), got.String())
 			}
 		case "integer":
 			if src.CanInt() {
 				if !got.CanInt() || src.Int() != got.Int() {
-					return false, fmt.Sprintf("%v %d became %v", src.Type(), src.Int(), got)
+					return "", fmt.Sprintf("%v %d became %v", src.Type(), src.Int(), got)
 				}
 			} else if !got.CanUint() || src.Uint() != got.Uint() {
-				return false, fmt.Sprintf("%v %d became %v", src.Type(), src.Uint(), got)
+				return "", fmt.Sprintf("%v %d became %v", src.Type(), src.Uint(), got)
 			}
 		case "float":
 			a, b := src.Float(), got.Float()
 			if a != a && b != b {
-				return false, ""
+				return "", ""
 			}
 			if math.Float64bits(a) != math.Float64bits(b) {
-				return false, fmt.Sprintf("%v %v became %v", src.Type(), a, b)
+				return "", fmt.Sprintf("%v %v became %v", src.Type(), a, b)
 			}
 		}
 	case sigen.List:
 		if src.Len() != got.Len() {
-			return true, fmt.Sprintf("slice of %d elements became %d elements", src.Len(), got.Len())
+			return "length", fmt.Sprintf("slice of %d elements became %d elements", src.Len(), got.Len())
 		}
 		for i := 0; i < src.Len(); i++ {
-			if _, w := same(st.Elem[0], dt.Elem[0], src.Index(i), got.Index(i), back); w != "" {
-				return false, fmt.Sprintf("[%d]: %s", i, w)
+			if k, w := same(st.Elem[0], dt.Elem[0], src.Index(i), got.Index(i), back, below); w != "" {
+				return keepUnmatched(k), fmt.Sprintf("[%d]: %s", i, w)
 			}
 		}
 	case sigen.Map:
-		if src.Len() != got.Len() {
-			return true, fmt.Sprintf("map of %d entries became %d entries", src.Len(), got.Len())
+		if !o.populated && src.Len() != got.Len() {
+			return "length", fmt.Sprintf("map of %d entries became %d entries", src.Len(), got.Len())
 		}
+		used := map[int]bool{}
+		gkeys := got.MapKeys()
 		for _, k := range src.MapKeys() {
 			// the entry of got whose key equals k
-			var found reflect.Value
-			for _, gk := range got.MapKeys() {
-				if _, w := same(st.Elem[0], dt.Elem[0], k, gk, back); w == "" {
-					found = gk
+			found := -1
+			for gi, gk := range gkeys {
+				if _, w := same(st.Elem[0], dt.Elem[0], k, gk, back, sameOpt{}); w == "" {
+					found = gi
 					break
 				}
 			}
-			if !found.IsValid() {
-				return false, fmt.Sprintf("key %v is missing from %v", k, got)
+			if found < 0 {
+				return "", fmt.Sprintf("key %v is missing from %v", k, got)
 			}
-			if _, w := same(st.Elem[1], dt.Elem[1], src.MapIndex(k), got.MapIndex(found), back); w != "" {
-				return false, fmt.Sprintf("[%v]: %s", k, w)
+			used[found] = true
+			if kk, w := same(st.Elem[1], dt.Elem[1], src.MapIndex(k), got.MapIndex(gkeys[found]), back, below); w != "" {
+				return keepUnmatched(kk), fmt.Sprintf("[%v]: %s", k, w)
+			}
+		}
+		if len(used) != len(gkeys) && (!o.populated || o.pre.IsValid()) {
+			// keys the source does not have: each of them was a key of the
+			// old destination
+			for gi, gk := range gkeys {
+				if used[gi] {
+					continue
+				}
+				old := false
+				if o.pre.IsValid() {
+					for _, pk := range o.pre.MapKeys() {
+						if identical(pk, gk) {
+							old = true
+							break
+						}
+					}
+				}
+				if !old {
+					return "length", fmt.Sprintf("key %v is neither a key of the source nor of the old destination: %v", gk, got)
+				}
 			}
 		}
 	case sigen.Struct:
-		// members without a counterpart and members that are not exported
-		// on the receiving side are not judged
+		// members that are not exported on the receiving side are not judged
 		for _, ij := range matched(st, dt) {
 			i, j := ij[0], ij[1]
 			g := j
@@ -775,12 +930,322 @@ func same(st, dt *sigen.T, src, got reflect.Value, back bool) (length bool, wher
 				}
 				g = i
 			}
-			if _, w := same(st.Elem[i], dt.Elem[j], src.Field(i), got.Field(g), back); w != "" {
-				return false, fmt.Sprintf(".%s: %s", st.Fields[i], w)
+			sub := below
+			if !back && o.pre.IsValid() {
+				sub.pre = o.pre.Field(j)
+			}
+			if k, w := same(st.Elem[i], dt.Elem[j], src.Field(i), got.Field(g), back, sub); w != "" {
+				return keepUnmatched(k), fmt.Sprintf(".%s: %s", st.Fields[i], w)
+			}
+		}
+		if !back && o.pre.IsValid() {
+			for j, n := range dt.Fields {
+				if !exported(n) || counterpart(st, dt, j) >= 0 {
+					continue
+				}
+				if !identical(o.pre.Field(j), got.Field(j)) {
+					return "unmatched", fmt.Sprintf(".%s has no counterpart in the source and held %s before the conversion, %s after", n, show(o.pre.Field(j)), show(got.Field(j)))
+				}
 			}
 		}
 	}
-	return false, ""
+	return "", ""
+}
+
+// keepUnmatched: the kind of a difference found deeper - "length" describes
+// the outermost container only.
+func keepUnmatched(kind string) string {
+	if kind == "unmatched" {
+		return kind
+	}
+	return ""
+}
+
+// describe prints what a variable holds, the elements waiting behind the
+// length of a slice included.
+func describe(v reflect.Value) string {
+	s := fmt.Sprintf("%#v", clone(v).Interface())
+	if v.Kind() == reflect.Slice && v.Cap() > v.Len() {
+		s += fmt.Sprintf(" with capacity %d, behind the length: %#v", v.Cap(), clone(v.Slice(v.Len(), v.Cap())).Interface())
+	}
+	return clip(s)
+}
+
+// show prints a value that may have been read from a member that is not
+// exported.
+func show(v reflect.Value) string { return clip(fmt.Sprintf("%v", v)) }
+
+// identical: a and b (of one type) hold the same data, element for element
+// (floats by bits, NaN equal to NaN; nil and empty containers alike). Only
+// reading accessors are used, so members that are not exported are compared
+// too.
+func identical(a, b reflect.Value) bool {
+	switch a.Kind() {
+	case reflect.Bool:
+		return a.Bool() == b.Bool()
+	case reflect.String:
+		return a.String() == b.String()
+	case reflect.Int8, reflect.Int16, reflect.Int32, reflect.Int64, reflect.Int:
+		return a.Int() == b.Int()
+	case reflect.Uint8, reflect.Uint16, reflect.Uint32, reflect.Uint64, reflect.Uint:
+		return a.Uint() == b.Uint()
+	case reflect.Float32, reflect.Float64:
+		x, y := a.Float(), b.Float()
+		return x != x && y != y || math.Float64bits(x) == math.Float64bits(y)
+	case reflect.Slice:
+		if a.Len() != b.Len() {
+			return false
+		}
+		for i := 0; i < a.Len(); i++ {
+			if !identical(a.Index(i), b.Index(i)) {
+				return false
+			}
+		}
+		return true
+	case reflect.Map:
+		if a.Len() != b.Len() {
+			return false
+		}
+		bk := b.MapKeys()
+		for _, k := range a.MapKeys() {
+			ok := false
+			for _, k2 := range bk {
+				if identical(k, k2) && identical(a.MapIndex(k), b.MapIndex(k2)) {
+					ok = true
+					break
+				}
+			}
+			if !ok {
+				return false
+			}
+		}
+		return true
+	case reflect.Struct:
+		for i := 0; i < a.NumField(); i++ {
+			if !identical(a.Field(i), b.Field(i)) {
+				return false
+			}
+		}
+		return true
+	}
+	panic("c20: identical: unsupported kind " + a.Kind().String())
+}
+
+// ------------------------------------------------------------ reference conversion
+
+// imageInto is the check's own conversion of x (of type st) into out, a zero
+// value of type dt, written from the statement: scalars keep their value,
+// slices and maps are rebuilt element by element, a destination member
+// receives the image of its counterpart. A destination member WITHOUT
+// counterpart is given (a copy of) the distinguished non-zero value of its
+// type when fill is set. Only reading accessors are applied to x, and members
+// that are not exported are written through their address. It is used to
+// build the values that populated destinations hold; the oracle (same) does
+// not depend on it.
+func (e *env) imageInto(st, dt *sigen.T, x, out reflect.Value, fill bool) {
+	if !out.CanSet() {
+		out = reflect.NewAt(out.Type(), unsafe.Pointer(out.UnsafeAddr())).Elem()
+	}
+	switch dt.Kind {
+	case sigen.Atom:
+		switch class(dt) {
+		case "bool":
+			out.SetBool(x.Bool())
+		case "string":
+			out.SetString(x.String())
+		case "integer":
+			if x.CanInt() {
+				out.SetInt(x.Int())
+			} else {
+				out.SetUint(x.Uint())
+			}
+		case "float":
+			out.SetFloat(x.Float())
+		}
+	case sigen.List:
+		if x.IsNil() {
+			return
+		}
+		out.Set(reflect.MakeSlice(out.Type(), x.Len(), x.Len()))
+		for i := 0; i < x.Len(); i++ {
+			e.imageInto(st.Elem[0], dt.Elem[0], x.Index(i), out.Index(i), fill)
+		}
+	case sigen.Map:
+		if x.IsNil() {
+			return
+		}
+		out.Set(reflect.MakeMapWithSize(out.Type(), x.Len()))
+		for _, k := range x.MapKeys() {
+			nk := reflect.New(out.Type().Key()).Elem()
+			// members of a KEY that have no counterpart stay zero, as in a
+			// key the conversion makes: an old key and a new one that agree
+			// on the matched members are then one key
+			e.imageInto(st.Elem[0], dt.Elem[0], k, nk, false)
+			nv := reflect.New(out.Type().Elem()).Elem()
+			e.imageInto(st.Elem[1], dt.Elem[1], x.MapIndex(k), nv, fill)
+			out.SetMapIndex(nk, nv)
+		}
+	case sigen.Struct:
+		for j := range dt.Fields {
+			i := counterpart(st, dt, j)
+			if i >= 0 && exported(dt.Fields[j]) {
+				e.imageInto(st.Elem[i], dt.Elem[j], x.Field(i), out.Field(j), fill)
+			} else if fill {
+				// a copy of the distinguished value: populations share nothing
+				m := dt.Elem[j]
+				d, ok := e.dist[m.Sig()]
+				if !ok {
+					d = e.vals(m, 2)[0]
+					e.dist[m.Sig()] = d
+				}
+				setMember(out.Field(j), clone(d))
+			}
+		}
+	}
+}
+
+// clone copies x into a new value that shares no memory with it; the spare
+// capacity of a slice and the elements waiting there are copied too. Only
+// reading accessors are applied to x.
+func clone(x reflect.Value) reflect.Value {
+	out := reflect.New(x.Type()).Elem()
+	cloneInto(x, out)
+	return out
+}
+
+func cloneInto(x, out reflect.Value) {
+	if !out.CanSet() {
+		out = reflect.NewAt(out.Type(), unsafe.Pointer(out.UnsafeAddr())).Elem()
+	}
+	switch x.Kind() {
+	case reflect.Bool:
+		out.SetBool(x.Bool())
+	case reflect.String:
+		out.SetString(x.String())
+	case reflect.Int8, reflect.Int16, reflect.Int32, reflect.Int64, reflect.Int:
+		out.SetInt(x.Int())
+	case reflect.Uint8, reflect.Uint16, reflect.Uint32, reflect.Uint64, reflect.Uint:
+		out.SetUint(x.Uint())
+	case reflect.Float32, reflect.Float64:
+		out.SetFloat(x.Float())
+	case reflect.Slice:
+		if x.IsNil() {
+			return
+		}
+		n := reflect.MakeSlice(x.Type(), x.Len(), x.Cap())
+		xf, nf := x.Slice(0, x.Cap()), n.Slice(0, x.Cap())
+		for i := 0; i < x.Cap(); i++ {
+			cloneInto(xf.Index(i), nf.Index(i))
+		}
+		out.Set(n)
+	case reflect.Map:
+		if x.IsNil() {
+			return
+		}
+		out.Set(reflect.MakeMapWithSize(x.Type(), x.Len()))
+		for _, k := range x.MapKeys() {
+			out.SetMapIndex(clone(k), clone(x.MapIndex(k)))
+		}
+	case reflect.Struct:
+		for i := 0; i < x.NumField(); i++ {
+			cloneInto(x.Field(i), out.Field(i))
+		}
+	default:
+		panic("c20: clone: unsupported kind " + x.Kind().String())
+	}
+}
+
+// spare cuts every slice of v that holds two elements or more down to its
+// first element WITHOUT giving up the backing array: the old elements stay
+// behind the length, where a conversion that grows the slice in place finds
+// them again. It reports whether there was such a slice.
+func spare(v reflect.Value) bool {
+	if !v.CanSet() && v.CanAddr() {
+		v = reflect.NewAt(v.Type(), unsafe.Pointer(v.UnsafeAddr())).Elem()
+	}
+	cut := false
+	switch v.Kind() {
+	case reflect.Slice:
+		for i := 0; i < v.Len(); i++ {
+			if spare(v.Index(i)) {
+				cut = true
+			}
+		}
+		if v.Len() >= 2 && v.CanSet() {
+			v.SetLen(1)
+			cut = true
+		}
+	case reflect.Map:
+		for _, k := range v.MapKeys() {
+			el := reflect.New(v.Type().Elem()).Elem()
+			el.Set(v.MapIndex(k))
+			if spare(el) {
+				v.SetMapIndex(k, el)
+				cut = true
+			}
+		}
+	case reflect.Struct:
+		for i := 0; i < v.NumField(); i++ {
+			if spare(v.Field(i)) {
+				cut = true
+			}
+		}
+	}
+	return cut
+}
+
+// The values a populated destination holds are the images of three values of
+// the SOURCE type (so that they are also values the way back can carry):
+var populations = []string{
+	"distinguished", // the first value of Val(src): two elements / entries, every member non-zero
+	"largest",       // the last value of Val(src): three elements, two crossed entries, the last diagonal struct
+	"spare",         // the largest with every slice of two or more elements cut to one element in place (old elements stay behind the length); the middle value of Val(src) where there is no such slice
+}
+
+// activePopulations: quick runs the first and the last (between them the old
+// destination is longer than, shorter than and as long as the sources, with
+// other content); thorough adds the largest.
+var activePopulations = []int{0, 2}
+
+func populationNames() string {
+	var l []string
+	for _, k := range activePopulations {
+		l = append(l, populations[k])
+	}
+	return strings.Join(l, ", ")
+}
+
+// populationSource: the value of Val(t) behind population k, and whether it
+// is to be cut by spare.
+func (e *env) populationSource(t *sigen.T, k int) (reflect.Value, bool) {
+	key := t.Sig()
+	p, ok := e.pop[key]
+	if !ok {
+		vals := e.vals(t, 0)
+		p.v[0], p.v[1], p.v[2] = vals[0], vals[len(vals)-1], vals[len(vals)-1]
+		if !spare(clone(p.v[2])) {
+			p.v[2] = vals[len(vals)/2]
+		} else {
+			p.cut = true
+		}
+		e.pop[key] = p
+	}
+	return p.v[k], k == 2 && p.cut
+}
+
+// populated builds the two variables of a populated case: the destination of
+// the forward conversion (type p.d) and that of the way back (type p.s).
+func (e *env) populated(p pair, k int) (fwd, back reflect.Value) {
+	src, cut := e.populationSource(p.s, k)
+	fwd = reflect.New(e.rtype(p.d))
+	e.imageInto(p.s, p.d, src, fwd.Elem(), true)
+	back = reflect.New(e.rtype(p.s))
+	cloneInto(src, back.Elem())
+	if cut {
+		spare(fwd.Elem())
+		spare(back.Elem())
+	}
+	return
 }
 
 // ------------------------------------------------------------ evaluation
@@ -795,36 +1260,58 @@ type failure struct {
 
 func (f *failure) key() string { return f.clause + "|" + f.msg + "|" + f.site }
 
-// evalCompatible judges one compatible case.
-func (e *env) evalCompatible(p pair, x reflect.Value) *failure {
+// evalCompatible judges one compatible case. pk < 0: both conversions are
+// made into fresh zero values. pk >= 0: into variables that already hold the
+// data of population pk (the same variable reused for a second call) - or, for
+// a sub-case met while localizing a failure, the part of the parent's
+// variables the sub-case is converted into (c.fwd, c.back: never handed to
+// the code under test themselves).
+func (e *env) evalCompatible(c kase, pk int) *failure {
+	p, x := c.p, c.x
 	dt, st := e.rtype(p.d), e.rtype(p.s)
-	dst := reflect.New(dt)
+	var dst, back reflect.Value
+	o := sameOpt{}
+	switch {
+	case pk >= 0 && c.fwd.IsValid():
+		dst, back = reflect.New(dt), reflect.New(st)
+		cloneInto(c.fwd, dst.Elem())
+		cloneInto(c.back, back.Elem())
+		o = sameOpt{pre: c.fwd, populated: true}
+	case pk >= 0:
+		dst, back = e.populated(p, pk)
+		o = sameOpt{pre: clone(dst.Elem()), populated: true}
+	default:
+		dst, back = reflect.New(dt), reflect.New(st)
+		o.pre = reflect.Zero(dt)
+	}
 	var err error
-	o := runner.GuardInline(func() { err = conversion.ConvertFrom(dst.Interface(), x.Interface()) })
-	if o.Panic != "" {
-		return &failure{"panic", "forward conversion panics: " + o.Panic, runner.MsgClass(o.Panic), o.Site, false}
+	g := runner.GuardInline(func() { err = conversion.ConvertFrom(dst.Interface(), x.Interface()) })
+	if g.Panic != "" {
+		return &failure{"panic", "forward conversion panics: " + g.Panic, runner.MsgClass(g.Panic), g.Site, false}
 	}
 	if err != nil {
 		return &failure{"compatible-pair-refused", err.Error(), "", "", false}
 	}
-	if l, w := same(p.s, p.d, x, dst.Elem(), false); w != "" {
-		return &failure{"not-preserved", w, "", "", l}
+	if k, w := same(p.s, p.d, x, dst.Elem(), false, o); w != "" {
+		if k == "unmatched" {
+			return &failure{"unmatched-member-changed", w, "", "", false}
+		}
+		return &failure{"not-preserved", w, "", "", k == "length"}
 	}
 	if !e.backOK(p) {
 		// the way back would store into a member that is not exported
 		e.backSkipped++
 		return nil
 	}
-	back := reflect.New(st)
-	o = runner.GuardInline(func() { err = conversion.ConvertFrom(back.Interface(), dst.Elem().Interface()) })
-	if o.Panic != "" {
-		return &failure{"panic", "back conversion panics: " + o.Panic, runner.MsgClass(o.Panic), o.Site, false}
+	g = runner.GuardInline(func() { err = conversion.ConvertFrom(back.Interface(), dst.Elem().Interface()) })
+	if g.Panic != "" {
+		return &failure{"panic", "back conversion panics: " + g.Panic, runner.MsgClass(g.Panic), g.Site, false}
 	}
 	if err != nil {
 		return &failure{"back-conversion-refused", err.Error(), "", "", false}
 	}
-	if l, w := same(p.s, p.d, x, back.Elem(), true); w != "" {
-		return &failure{"roundtrip-not-preserved", w, "", "", l}
+	if k, w := same(p.s, p.d, x, back.Elem(), true, sameOpt{populated: pk >= 0}); w != "" {
+		return &failure{"roundtrip-not-preserved", w, "", "", k == "length"}
 	}
 	return nil
 }
@@ -846,8 +1333,29 @@ func (e *env) evalIncompatible(p pair, x reflect.Value) *failure {
 // child cases of a compatible case: (pair, value) for every element, key,
 // map value and matched member.
 type kase struct {
-	p pair
-	x reflect.Value
+	p         pair
+	x         reflect.Value
+	fwd, back reflect.Value // populated cases being localized: what the two destination variables hold (else invalid)
+}
+
+// withVars gives a populated case its two variables explicitly, so that its
+// sub-cases can be given their parts of them.
+func (e *env) withVars(c kase, pk int) kase {
+	if pk >= 0 && !c.fwd.IsValid() {
+		f, b := e.populated(c.p, pk)
+		c.fwd, c.back = f.Elem(), b.Elem()
+	}
+	return c
+}
+
+// oldElem: what element i of a destination slice holds when n elements are
+// converted into old - the old element where the backing array is kept (also
+// behind the length), a zero value where a new array is needed.
+func oldElem(old reflect.Value, i, n int) reflect.Value {
+	if old.Cap() >= n {
+		return old.Slice(0, old.Cap()).Index(i)
+	}
+	return reflect.New(old.Type().Elem()).Elem()
 }
 
 func children(c kase) []kase {
@@ -856,19 +1364,35 @@ func children(c kase) []kase {
 	if s.Kind != d.Kind {
 		return nil
 	}
+	vars := c.fwd.IsValid()
 	switch s.Kind {
 	case sigen.List:
 		for i := 0; i < c.x.Len(); i++ {
-			out = append(out, kase{pair{s.Elem[0], d.Elem[0]}, c.x.Index(i)})
+			k := kase{p: pair{s.Elem[0], d.Elem[0]}, x: c.x.Index(i)}
+			if vars {
+				k.fwd, k.back = oldElem(c.fwd, i, c.x.Len()), oldElem(c.back, i, c.x.Len())
+			}
+			out = append(out, k)
 		}
 	case sigen.Map:
+		// keys and values are converted into new variables
 		for _, k := range c.x.MapKeys() {
-			out = append(out, kase{pair{s.Elem[0], d.Elem[0]}, k}, kase{pair{s.Elem[1], d.Elem[1]}, c.x.MapIndex(k)})
+			kk := kase{p: pair{s.Elem[0], d.Elem[0]}, x: k}
+			kv := kase{p: pair{s.Elem[1], d.Elem[1]}, x: c.x.MapIndex(k)}
+			if vars {
+				kk.fwd, kk.back = reflect.New(c.fwd.Type().Key()).Elem(), reflect.New(c.back.Type().Key()).Elem()
+				kv.fwd, kv.back = reflect.New(c.fwd.Type().Elem()).Elem(), reflect.New(c.back.Type().Elem()).Elem()
+			}
+			out = append(out, kk, kv)
 		}
 	case sigen.Struct:
 		for _, ij := range matched(s, d) {
 			if exported(s.Fields[ij[0]]) { // the others cannot be handed to ConvertFrom on their own
-				out = append(out, kase{pair{s.Elem[ij[0]], d.Elem[ij[1]]}, c.x.Field(ij[0])})
+				k := kase{p: pair{s.Elem[ij[0]], d.Elem[ij[1]]}, x: c.x.Field(ij[0])}
+				if vars {
+					k.fwd, k.back = c.fwd.Field(ij[1]), c.back.Field(ij[0])
+				}
+				out = append(out, k)
 			}
 		}
 	}
@@ -911,6 +1435,7 @@ type witness struct {
 	fp, what      string
 	src, dst, val string
 	valIndex      int
+	popIndex      int // population of the destination variables, -1 = fresh
 	family        string
 	incomp        bool
 	count         int
@@ -955,7 +1480,7 @@ func clip(s string) string {
 	return s
 }
 
-func (st *wstate) record(family string, incomp bool, orig kase, idx int, min kase, f *failure, entry string) {
+func (st *wstate) record(family string, incomp bool, orig kase, idx, pk int, min kase, f *failure, entry string) {
 	detail := nodeName(min.p)
 	if f.clause == "panic" {
 		detail = f.msg + "@" + f.site + "/" + detail
@@ -964,11 +1489,23 @@ func (st *wstate) record(family string, incomp bool, orig kase, idx int, min kas
 	if f.length {
 		clause += ":length"
 	}
-	fp := report.FPEscape("ConvertFrom/" + detail + "/" + clause)
-	what := fmt.Sprintf("%s: ConvertFrom(*%v, %v %s): %s: %s", entry, typeString(rtypeNoCache(min.p.d)), typeString(rtypeNoCache(min.p.s)), clip(fmt.Sprintf("%#v", min.x.Interface())), f.clause, clip(f.detail))
+	call, into := "ConvertFrom", ""
+	if pk >= 0 {
+		// a failure that needs a destination holding data has its own entry
+		// point in the fingerprint
+		call = "ConvertFrom(populated-destination)"
+		held := min.fwd
+		if !held.IsValid() {
+			fwd, _ := st.e.populated(min.p, pk)
+			held = fwd.Elem()
+		}
+		into = fmt.Sprintf(" (population %q: the destination variable held %s; on the way back the variable of the source type held the same data)", populations[pk], describe(held))
+	}
+	fp := report.FPEscape(call + "/" + detail + "/" + clause)
+	what := fmt.Sprintf("%s: ConvertFrom(*%v, %v %s)%s: %s: %s", entry, typeString(rtypeNoCache(min.p.d)), typeString(rtypeNoCache(min.p.s)), clip(fmt.Sprintf("%#v", min.x.Interface())), into, f.clause, clip(f.detail))
 	size := orig.p.s.Size()*1000 + len(fmt.Sprintf("%#v", orig.x.Interface()))
 	w, ok := st.wit[fp]
-	cand := &witness{fp, what, orig.p.s.Sig(), orig.p.d.Sig(), fmt.Sprintf("%#v", orig.x.Interface()), idx, family, incomp, 1, size}
+	cand := &witness{fp, what, orig.p.s.Sig(), orig.p.d.Sig(), fmt.Sprintf("%#v", orig.x.Interface()), idx, pk, family, incomp, 1, size}
 	if !ok {
 		st.wit[fp] = cand
 		return
@@ -981,52 +1518,70 @@ func (st *wstate) record(family string, incomp bool, orig kase, idx int, min kas
 }
 
 type job struct {
-	family string
-	p      pair
-	incomp bool
+	family    string
+	p         pair
+	incomp    bool
+	populated bool // compatible pairs converted into variables that already hold data
 }
 
 func (st *wstate) do(j job) {
 	st.pairs++
 	vals := st.e.vals(j.p.s, 0)
+	pks := []int{-1}
+	if j.populated {
+		pks = activePopulations
+	}
 	for idx, x := range vals {
 		if j.incomp && !reachesCrossClass(j.p, x) {
 			continue
 		}
-		st.evals++
-		st.perFamily[j.family]++
-		c := kase{j.p, x}
-		var f *failure
-		eval := st.e.evalCompatible
-		if j.incomp {
-			eval = st.e.evalIncompatible
-		}
-		f = eval(c.p, c.x)
-		out := "ok"
-		if f != nil {
-			out = f.clause
-		}
-		st.distinct[shapePair(j.p)+" => "+out] = struct{}{}
-		if idx == 0 {
-			st.sample(j.family, fmt.Sprintf("%v -> %v, e.g. %s => %s", typeString(st.e.rtype(j.p.s)), typeString(st.e.rtype(j.p.d)), clip(fmt.Sprintf("%#v", x.Interface())), out))
-		}
-		if f == nil {
-			continue
-		}
-		min := c
-		if !j.incomp {
-			min = localize(c, f.key(), func(k kase) *failure { return st.e.evalCompatible(k.p, k.x) })
-			if f2 := st.e.evalCompatible(min.p, min.x); f2 != nil && f2.key() == f.key() {
-				f = f2
-			}
-		} else {
-			min = st.e.localizeIncompatible(c, f.key())
-			if f2 := st.e.evalIncompatible(min.p, min.x); f2 != nil && f2.key() == f.key() {
-				f = f2
+		for _, pk := range pks {
+			st.evals++
+			st.perFamily[j.family]++
+			out := st.judge(j.family, j.incomp, kase{p: j.p, x: x}, idx, pk)
+			st.distinct[shapePair(j.p)+" => "+out] = struct{}{}
+			if idx == 0 && pk <= 0 {
+				st.sample(j.family, fmt.Sprintf("%v -> %v, e.g. %s => %s", typeString(st.e.rtype(j.p.s)), typeString(st.e.rtype(j.p.d)), clip(fmt.Sprintf("%#v", x.Interface())), out))
 			}
 		}
-		st.record(j.family, j.incomp, c, idx, min, f, "family "+j.family)
 	}
+}
+
+// judge evaluates one case, localizes a failure and records it; it returns
+// the outcome class.
+func (st *wstate) judge(family string, incomp bool, c kase, idx, pk int) string {
+	var f *failure
+	if incomp {
+		f = st.e.evalIncompatible(c.p, c.x)
+	} else {
+		f = st.e.evalCompatible(c, pk)
+	}
+	if f == nil {
+		return "ok"
+	}
+	out := f.clause
+	if pk >= 0 {
+		// a failure that does not need the populated destination is the
+		// business of the family this one repeats (same pair, same value,
+		// fresh destination): it is reported there, under the plain entry
+		if f0 := st.e.evalCompatible(c, -1); f0 != nil && f0.key() == f.key() {
+			return out
+		}
+	}
+	min := c
+	if !incomp {
+		min = localize(st.e.withVars(c, pk), f.key(), func(k kase) *failure { return st.e.evalCompatible(k, pk) })
+		if f2 := st.e.evalCompatible(min, pk); f2 != nil && f2.key() == f.key() {
+			f = f2
+		}
+	} else {
+		min = st.e.localizeIncompatible(c, f.key())
+		if f2 := st.e.evalIncompatible(min.p, min.x); f2 != nil && f2.key() == f.key() {
+			f = f2
+		}
+	}
+	st.record(family, incomp, c, idx, pk, min, f, "family "+family)
+	return out
 }
 
 // shapePair abstracts a pair for the distinct count: the two constructor
@@ -1323,8 +1878,9 @@ func structMemberBase() (compat, incomp []pair, groups map[string]int) {
 		addI("E-embedded/P-crossed", pair{sigen.St("S", place(ps, "E", "A", "B"), place(ps, sigen.St("S", []string{"P", "Q"}, s, s), i, s)...), zooT("embedded/wide/" + ps)})
 	}
 
-	// 4. exported members whose names differ only in letter case
-	for _, names := range [][2]string{{"Ab", "AB"}, {"AB", "Ab"}} {
+	// 4. exported members whose names differ only in letter case (of a
+	// letter that is not the first one; ASCII and not)
+	for _, names := range [][2]string{{"Ab", "AB"}, {"AB", "Ab"}, {"FrameId", "FrameID"}, {"FrameID", "FrameId"}, {"Aé", "AÉ"}, {"AÉ", "Aé"}} {
 		for _, ps := range positions {
 			src := sigen.St("S", place(ps, names[0], "A", "B"), place(ps, i, i, s)...)
 			for _, pd := range positions {
@@ -1335,7 +1891,109 @@ func structMemberBase() (compat, incomp []pair, groups map[string]int) {
 			}
 		}
 	}
+
+	// 5. member names that resemble each other WITHOUT being the same name
+	for _, np := range namePairs {
+		lead := np.shape == "underscore-leading"
+		// two-in-one: both members on both sides, each receives its own value
+		for _, kind := range nameKindNames {
+			k := nameKinds[kind]
+			for _, so := range []string{"xzy", "yzx"} {
+				var src *sigen.T
+				if lead {
+					src = zooT("names/lead/two/" + so + "/" + kind)
+				} else {
+					src = sigen.St("S", order3(so, np.x, "Z", np.y), order3(so, k[0].s, s, k[1].s)...)
+				}
+				for _, do := range []string{"xzy", "yzx"} {
+					if lead { // the destination holds Ab only (Z, Ab / Ab, Z): it could not store into _Ab
+						o2 := map[string]string{"xzy": "zx", "yzx": "xz"}[do]
+						addC("names/two-in-one", pair{src, sigen.St("S", order2(o2, np.y, "Z"), order2(o2, k[1].d, s)...)})
+						continue
+					}
+					addC("names/two-in-one", pair{src, sigen.St("S", order3(do, np.x, "Z", np.y), order3(do, k[0].d, s, k[1].d)...)})
+				}
+			}
+		}
+		// one-each-side: X (Y) in the source only, Y (X) in the destination
+		// only - they are different names: the pair is converted without an
+		// error, also when X and Y are of different kind classes, Z arrives,
+		// and the destination member keeps what it held
+		for _, kind := range []string{"ints", "crossed"} {
+			for _, names := range [][2]string{{np.x, np.y}, {np.y, np.x}} {
+				for _, do := range []string{"xz", "zx"} {
+					srcT, dstT := i, l
+					if kind == "crossed" {
+						srcT, dstT = s, sigen.L(l)
+					}
+					src := sigen.St("S", []string{names[0], "Z"}, srcT, s)
+					dst := sigen.St("S", order2(do, names[1], "Z"), order2(do, dstT, s)...)
+					if !exported(names[0]) {
+						src = zooT("names/lead/src/" + kind)
+					}
+					if !exported(names[1]) {
+						dst = zooT("names/lead/dst/" + do + "/" + kind)
+					}
+					addC("names/one-each-side", pair{src, dst})
+				}
+			}
+		}
+	}
 	return
+}
+
+// namePairs: two member names X, Y that are different names (also with
+// letter case ignored) and resemble each other.
+var namePairs = []struct{ x, y, shape string }{
+	{"Frame_id", "FrameId", "underscore-inner"},
+	{"Tag_s", "Tags", "underscore-inner"},
+	{"X_1", "X1", "underscore-before-digit"},
+	{"Ab_", "Ab", "underscore-trailing"},
+	{"A_b", "A__b", "underscore-doubled"},
+	{"Frame_id", "FrameID", "underscore-and-case"},
+	{"_Ab", "Ab", "underscore-leading"}, // _Ab is not exported: statically declared types
+	{"A1", "A2", "digit"},
+	{"A1", "A01", "digit-leading-zero"},
+	{"A1", "A", "digit-suffix"},
+	{"Aé", "Ae", "unicode-diacritic"},
+	{"Aé", "Aè", "unicode-two-diacritics"},
+	{"Äb", "Ab", "unicode-first-letter"},
+	{"Tag", "Tags", "prefix"},
+	{"Ab", "Abc", "prefix"},
+}
+
+func namePairsText() string {
+	var l []string
+	for _, np := range namePairs {
+		l = append(l, fmt.Sprintf("%s / %s (%s)", np.x, np.y, np.shape))
+	}
+	return strings.Join(l, ", ")
+}
+
+// nameKinds: the types of the members X and Y of a two-in-one pair, as
+// (source, destination) trees.
+var nameKindNames = []string{"ints", "mixed", "nested"}
+
+var nameKinds = map[string][2]pair{
+	"ints":   {{sigen.A('i'), sigen.A('l')}, {sigen.A('i'), sigen.A('l')}},
+	"mixed":  {{sigen.A('s'), sigen.A('s')}, {sigen.L(sigen.A('c')), sigen.L(sigen.A('i'))}},
+	"nested": {{sigen.St("S", []string{"P"}, sigen.A('i')), sigen.St("S", []string{"P"}, sigen.A('l'))}, {sigen.M(sigen.A('s'), sigen.A('i')), sigen.M(sigen.A('s'), sigen.A('l'))}},
+}
+
+// order3 arranges x, z, y as "xzy" or "yzx"; order2 arranges x, z as "xz" or
+// "zx".
+func order3[X any](o string, x, z, y X) []X {
+	if o == "yzx" {
+		return []X{y, z, x}
+	}
+	return []X{x, z, y}
+}
+
+func order2[X any](o string, x, z X) []X {
+	if o[0] == 'z' {
+		return []X{z, x}
+	}
+	return []X{x, z}
 }
 
 // nest puts a pair at every position of a container: slice element, map
@@ -1382,7 +2040,7 @@ func main() {
 	}
 	tier := report.Tier()
 	start := time.Now()
-	budget := 40 * time.Second
+	budget := 90 * time.Second // a cap, not a target: ~10 s on an idle machine, ~35 s with the machine four times oversubscribed
 	workers := 8
 	if tier == "thorough" {
 		budget = 480 * time.Second
@@ -1450,12 +2108,47 @@ func main() {
 		"(kind bool also with payload A []int32 -> []int64, B map[string]float32 -> map[string]float64 and with payload A struct{P; unexported bool; Q} nested); both-sides = every source shape x every destination shape of the same payload except blank x blank. " +
 		"v-into-V: unexported source member v {bool, []int32, map[string]int32, struct{P int32}} whose counterpart is the exported destination member V (3 x 3 positions; forward conversion only, the way back would store into v). " +
 		"E-*: embedded exported struct E{P; Q} on both sides (3 x 3 positions), embedded on one side with an ordinary member E on the other, embedded without counterpart. " +
-		"case: exported member Ab whose counterpart is AB and conversely (3 x 3 positions). " +
+		"case: exported member Ab whose counterpart is AB, FrameId / FrameID, Aé / AÉ and conversely (3 x 3 positions). " +
+		"names/*: two member names X, Y that are DIFFERENT names, also with letter case ignored, and resemble each other - " + namePairsText() + " - with the string member Z. " +
+		"names/two-in-one: the source holds X, Z, Y in the order xzy / yzx and so does the destination (2 x 2 orders), members of kinds {X int32 -> int64, Y int32 -> int64; X string, Y []int8 -> []int32; X struct{P int32} -> struct{P int64}, Y map[string]int32 -> map[string]int64}; " +
+		"each member must receive its own value (for _Ab, which is not exported, the source is a statically declared type and the destination holds Ab and Z only). " +
+		"names/one-each-side: source {X, Z} and destination {Y, Z} / {Z, Y}, and the same with X and Y exchanged, X and Y both integers (int32, int64) or of two kind classes (string, []int64): X and Y are not counterparts, " +
+		"so the pair is converted without an error, Z arrives and the destination member keeps what it held. " +
 		"groups (un-nested pairs): " + strings.Join(gtxt, ", ") + "; " + nesting
-	fams = append(fams, famDef{"struct-members:compatible", smText + ". Oracle: every exported destination member with a counterpart (same name, letter case ignored) equals it, the round trip recovers the exported matched members of the source, no error, no panic; the content of members that are not exported is not judged",
+	fams = append(fams, famDef{"struct-members:compatible", smText + ". Oracle: every exported destination member with a counterpart (same name, letter case ignored) equals it, an exported destination member WITHOUT counterpart still holds what it held before (where the check knows that: at the root and below struct members), " +
+		"the round trip recovers the exported matched members of the source, no error, no panic; the content of members that are not exported is not judged",
 		nestAll(smC, true, levels), false})
 	fams = append(fams, famDef{"struct-members:incompatible", "the same struct shapes in which ONE matched member pair (A, B, v/V, E, a member of E, Ab/AB) is of two different kind classes (the destination or source member ranges over one representative of each of the 6 other classes), " + nesting + "; only values that reach the cross-class node. Oracle: refused with an error, no panic",
 		nestAll(smI, false, levels), true})
+	if tier == "thorough" {
+		activePopulations = []int{0, 1, 2}
+	}
+	// populated destinations: the compatible families once more, every
+	// conversion made into a variable that already holds data
+	populatedFam := map[string]bool{}
+	for _, f := range append([]famDef(nil), fams...) {
+		// sub-universe: not the -wide families in quick, not depth3-wide in
+		// thorough (they widen the SCALAR pairs at the leaves, which the
+		// reuse of a variable does not depend on; depth3-wide alone would be
+		// 8.8 million more evaluations)
+		if f.incomp || strings.HasSuffix(f.name, "-wide") && tier != "thorough" || f.name == "compatible:depth3-wide" {
+			continue
+		}
+		name := "populated:" + strings.TrimPrefix(strings.TrimPrefix(f.name, "compatible:"), "struct-members:compatible")
+		if f.name == "struct-members:compatible" {
+			name = "populated:struct-members"
+		}
+		populatedFam[name] = true
+		fams = append(fams, famDef{name, "every type pair and every value of family " + f.name + ", each converted " + fmt.Sprint(len(activePopulations)) + " times (populations of this tier: " + populationNames() + "): the destination variable (and, on the way back, the variable of the source type) already holds data, as when one variable receives two conversions in a row. " +
+			"The data are the check's own images (reference conversion written from the statement, every destination member without counterpart set to a non-zero value; in map keys such members stay zero) of values of the source type: " +
+			"distinguished (first value of Val(src): two elements / two entries / all members non-zero), largest (last value of Val(src): three elements, two crossed entries, last diagonal struct), " +
+			"spare (the largest with every slice of two or more elements, at any depth, cut to its first element in place, so that the old elements wait behind the length; the middle value of Val(src) for types without such a slice). " +
+			"Against the 2-, 0- (nil and empty), 1- and 3-element sources of Val the old destination is thus longer, shorter and of equal length, holds other keys and the same keys with other values, and non-zero members everywhere. " +
+			"Oracle: the statement's, whatever the variable held - a slice has exactly the source's elements; every key of the source is present with the source's value; every matched member equals its counterpart; " +
+			"a member without counterpart still holds the old data (root and below struct members); the way back recovers the source; no error, no panic. " +
+			"A map key that only the OLD destination had may stay (see assumptions) but no other key may appear",
+			f.pairs, false})
+	}
 	for _, k := range zooMissing {
 		chk.EngineError("zoo_gen.go has no type for shape %s (re-run go generate in checks/c20)", k)
 	}
@@ -1495,7 +2188,7 @@ func main() {
 		f := f
 		ok := runner.Each(workers, deadline, func(emit func(job) bool) {
 			for _, p := range f.pairs {
-				if !emit(job{f.name, p, f.incomp}) {
+				if !emit(job{f.name, p, f.incomp, populatedFam[f.name]}) {
 					return
 				}
 			}
@@ -1580,7 +2273,7 @@ func main() {
 		if again < 20 {
 			w.what += fmt.Sprintf(" [order-dependent: reproduced in %d of 20 re-runs]", again)
 		}
-		rep := map[string]interface{}{"family": w.family, "src_type": w.src, "dst_type": w.dst, "value_index": w.valIndex, "value": w.val,
+		rep := map[string]interface{}{"family": w.family, "src_type": w.src, "dst_type": w.dst, "value_index": w.valIndex, "population_index": w.popIndex, "value": w.val,
 			"cases_with_this_fingerprint": w.count, "note": "types are written in signature syntax (c C w W i I l L = int8 uint8 int16 uint16 int32 uint32 int64 uint64, f d = float32 float64, b bool, s string); a struct whose name is not S is the statically declared Go type of that name in checks/c20/zoo_gen.go (member blank = _)",
 			"src_go_type": typeString(rtypeNoCache(mustTree(w.src))), "dst_go_type": typeString(rtypeNoCache(mustTree(w.dst))),
 			"replay_cmd": "./check.sh C20 quick --replay <this file>"}
@@ -1601,12 +2294,17 @@ func main() {
 		"evaluations":                          total.evals,
 		"type_pairs":                           total.pairs,
 		"static_struct_types":                  len(statics),
+		"resembling_name_pairs":                len(namePairs),
+		"populations_per_case":                 len(activePopulations),
+		"populated_destination_evaluations":    populatedEvals(total.perFamily),
 		"struct_member_groups_unnested_pairs":  smGroups,
 		"compatible_cases_judged_forward_only": total.e.backSkipped,
 		"distinct_nontrivial":                  nontrivial,
 		"rule": "every (src type, dst type) pair of each family x every value of Val(src) (booleans both; integers {byte-asymmetric pattern, min, max, -1, 0, 1, 0x7f}; floats {1.5, a second finite value, max, smallest denormal, 0, -0, Inf, NaN}; " +
 			"strings {\"q\", \"\", multi-byte, 255 bytes, \"a\"}; slices {two elements, nil, empty, every single element, three elements}; maps {two entries, nil, empty, every single entry of the key/value diagonal, two entries crossed}; " +
 			"structs {all distinguished, one member at a time over its whole set, the diagonal} - members of a SOURCE struct that are not exported are given their values too (written through their address); nested positions capped to the first 6 values at level 1 and 3 deeper). " +
+			"Families populated:* repeat every case of a compatible family once per population of the destination variables (populations of this tier: " + populationNames() + "; an evaluation = one (type pair, value, population) triple, forward and back conversion). " +
+			"Member names of the struct-member families include " + fmt.Sprint(len(namePairs)) + " pairs of resembling names (underscores, digits, letters that are not ASCII, prefixes; listed in the family text). " +
 			"compatible_cases_judged_forward_only = cases of the v-into-V group, whose way back would store into the unexported member v: only the forward conversion is judged there. " +
 			"distinct_nontrivial = number of distinct (src type, dst type, outcome class) triples in which the types are composite (scalar pairs are counted as trivial)",
 		"distinct_pair_outcomes_including_scalars": len(total.distinct),
@@ -1618,7 +2316,10 @@ func main() {
 	}
 	assumptions := []string{
 		"small-scope hypothesis: recursion mistakes of convertSlice / convertMap / convertStruct show on containers of depth <= 2 (3 in thorough) holding 0..3 elements",
-		"the destination is a fresh zero value; destinations pre-populated with other data are not explored",
+		"destination variables: fresh zero values (all families) and variables that already hold data (populated:* families, 2 populations per case in quick and 3 in thorough, see the family texts; the repetition leaves out family depth2-wide in quick and depth3-wide in thorough, which only widen the set of scalar pairs at the leaves); other populations - destinations sharing memory with the source, pointers inside - are not explored",
+		"maps are converted by the implementation INTO the existing map (as encoding/json does) and ConvertFrom documents that the destination 'can be populated with default values': a key that only the old destination held is therefore allowed to stay, with whatever value (its survival also shows on the way back, where extra keys are accepted for the same reason); what is judged is that every key of the source is there with the source's value and that no key appears from nowhere. " +
+			"Below a slice element or a map entry nothing is assumed about reuse of the old element: members without counterpart and old map keys are not judged there. Slices have no such latitude: a slice must have exactly the source's elements",
+		"a destination member without counterpart in the source is left as it was (fresh destination: zero); this is how 'structs matched by field name' is made observable for names that are NOT the same name (names/one-each-side): if the implementation matched them, the member would change or the pair would be refused",
 		"not judged (the statement is silent): narrowing and cross-signedness integer pairs, struct members without a counterpart, the content of struct members that are not exported, nil versus empty containers, NaN payload bits, int / uint / pointer / interface kinds",
 		"struct members are matched by name with letter case ignored (the repository's TestStruct expects exported E to receive unexported e); not in the universe: an unexported (or blank) destination member that HAS a counterpart in the source, and structs with two members equal up to letter case",
 		"conversion.DecodeFrom / EncodeInto are not exercised (they add the codec, which is C02/C03's business); ConvertFrom is the function they delegate to",
@@ -1626,8 +2327,121 @@ func main() {
 	os.Exit(chk.Finish(cov, assumptions))
 }
 
+// recognize reads a type back from its signature (replay files, witnesses).
+// It is sigen.Recognize with Go's identifiers for member names: the member
+// names of this check's universe may start with an underscore and hold
+// letters that are not ASCII, which the signature grammar does not admit.
+func recognize(sig string) (*sigen.T, bool) {
+	p := &sigParser{s: sig}
+	t := p.typ(0)
+	if t == nil || p.i != len(sig) {
+		return nil, false
+	}
+	return t, true
+}
+
+type sigParser struct {
+	s string
+	i int
+}
+
+func (p *sigParser) peek() byte {
+	if p.i < len(p.s) {
+		return p.s[p.i]
+	}
+	return 0
+}
+
+func (p *sigParser) ident() string {
+	j := p.i
+	for p.i < len(p.s) {
+		r, n := utf8.DecodeRuneInString(p.s[p.i:])
+		if !(r == '_' || unicode.IsLetter(r) || p.i > j && unicode.IsDigit(r)) {
+			break
+		}
+		p.i += n
+	}
+	return p.s[j:p.i]
+}
+
+func (p *sigParser) typ(depth int) *sigen.T {
+	if depth > 64 {
+		return nil
+	}
+	c := p.peek()
+	switch {
+	case c != 0 && strings.IndexByte(sigen.AllAtoms, c) >= 0:
+		p.i++
+		return sigen.A(c)
+	case c == '[':
+		p.i++
+		e := p.typ(depth + 1)
+		if e == nil || p.peek() != ']' {
+			return nil
+		}
+		p.i++
+		return sigen.L(e)
+	case c == '{':
+		p.i++
+		k := p.typ(depth + 1)
+		if k == nil {
+			return nil
+		}
+		v := p.typ(depth + 1)
+		if v == nil || p.peek() != '}' {
+			return nil
+		}
+		p.i++
+		return sigen.M(k, v)
+	case c == '(':
+		p.i++
+		var m []*sigen.T
+		for p.peek() != ')' {
+			e := p.typ(depth + 1)
+			if e == nil {
+				return nil
+			}
+			m = append(m, e)
+		}
+		p.i++
+		if p.peek() != '<' {
+			return nil // no tuples in this check
+		}
+		p.i++
+		name := p.ident()
+		if name == "" {
+			return nil
+		}
+		var fields []string
+		for p.peek() == ',' {
+			p.i++
+			f := p.ident()
+			if f == "" {
+				return nil
+			}
+			fields = append(fields, f)
+		}
+		if p.peek() != '>' || len(fields) != len(m) {
+			return nil
+		}
+		p.i++
+		return sigen.St(name, fields, m...)
+	}
+	return nil
+}
+
+func populatedEvals(per map[string]int) int {
+	n := 0
+	for k, v := range per {
+		if strings.HasPrefix(k, "populated:") {
+			n += v
+		}
+	}
+	return n
+}
+
 func mustTree(sig string) *sigen.T {
-	t, ok := sigen.Recognize(sig)
+	t, ok := recognize(sig)
 	if !ok {
 		panic("c20: unparsable signature " + sig)
 	}
@@ -1635,8 +2449,8 @@ func mustTree(sig string) *sigen.T {
 }
 
 func findCase(src, dst string, idx int) (kase, bool) {
-	s, ok1 := sigen.Recognize(src)
-	d, ok2 := sigen.Recognize(dst)
+	s, ok1 := recognize(src)
+	d, ok2 := recognize(dst)
 	if !ok1 || !ok2 {
 		return kase{}, false
 	}
@@ -1645,7 +2459,7 @@ func findCase(src, dst string, idx int) (kase, bool) {
 	if idx < 0 || idx >= len(vals) {
 		return kase{}, false
 	}
-	return kase{pair{s, d}, vals[idx]}, true
+	return kase{p: pair{s, d}, x: vals[idx]}, true
 }
 
 func reproduces(w *witness) bool {
@@ -1654,38 +2468,17 @@ func reproduces(w *witness) bool {
 		return false
 	}
 	st := newState()
-	st.doOne(w.family, w.incomp, c, w.valIndex)
+	st.doOne(w.family, w.incomp, c, w.valIndex, w.popIndex)
 	_, ok = st.wit[w.fp]
 	return ok
 }
 
 // doOne judges a single case (used for confirmation and replay).
-func (st *wstate) doOne(family string, incomp bool, c kase, idx int) {
+func (st *wstate) doOne(family string, incomp bool, c kase, idx, pk int) {
 	if family == "replay" {
 		incomp = !compatible(c.p)
 	}
-	var f *failure
-	if incomp {
-		f = st.e.evalIncompatible(c.p, c.x)
-	} else {
-		f = st.e.evalCompatible(c.p, c.x)
-	}
-	if f == nil {
-		return
-	}
-	min := c
-	if !incomp {
-		min = localize(c, f.key(), func(k kase) *failure { return st.e.evalCompatible(k.p, k.x) })
-		if f2 := st.e.evalCompatible(min.p, min.x); f2 != nil && f2.key() == f.key() {
-			f = f2
-		}
-	} else {
-		min = st.e.localizeIncompatible(c, f.key())
-		if f2 := st.e.evalIncompatible(min.p, min.x); f2 != nil && f2.key() == f.key() {
-			f = f2
-		}
-	}
-	st.record(family, incomp, c, idx, min, f, "family "+family)
+	st.judge(family, incomp, c, idx, pk)
 }
 
 // compatible: same class everywhere (used by replay to choose the oracle).
@@ -1719,6 +2512,7 @@ func replay(path string) int {
 			Src   string `json:"src_type"`
 			Dst   string `json:"dst_type"`
 			Index int    `json:"value_index"`
+			Pop   *int   `json:"population_index"`
 		} `json:"replay"`
 	}
 	if err := json.Unmarshal(data, &f); err != nil {
@@ -1731,8 +2525,16 @@ func replay(path string) int {
 		return 2
 	}
 	st := newState()
-	st.doOne("replay", false, c, f.Replay.Index)
+	pk := -1
+	if f.Replay.Pop != nil && *f.Replay.Pop >= 0 && *f.Replay.Pop < len(populations) {
+		pk = *f.Replay.Pop
+	}
+	st.doOne("replay", false, c, f.Replay.Index, pk)
 	fmt.Printf("ConvertFrom(*%v, %v %#v)\n", typeString(rtypeNoCache(c.p.d)), typeString(rtypeNoCache(c.p.s)), c.x.Interface())
+	if pk >= 0 {
+		fwd, _ := st.e.populated(c.p, pk)
+		fmt.Printf("  into a destination variable holding the %s population %#v\n", populations[pk], fwd.Elem().Interface())
+	}
 	if len(st.wit) == 0 {
 		fmt.Println("  no violation")
 		return 0
